@@ -22,6 +22,11 @@ def vals(line):
     return line.split(" |")[0]
 
 
+def strip(line):
+    """drops the order-sensitivity marker"""
+    return line[:-2] if line.endswith(" ~") else line
+
+
 def run_shard(binpath, mode, seed, tier, n, outdir, replay=None, toggles_sets=(), core=True):
     os.makedirs(outdir, exist_ok=True)
     cmd = [binpath, "--seed", str(seed), "--tier", tier, "--out", outdir, "--mode", mode, "--n", str(n)]
@@ -30,7 +35,7 @@ def run_shard(binpath, mode, seed, tier, n, outdir, replay=None, toggles_sets=()
     if p.returncode != 0:
         return {"error": f"harness exited {p.returncode}: {p.stdout[-2000:]}"}
     outs = {}
-    for name, args in [("asis", [])] + [(" ".join(t), list(t)) for t in toggles_sets] + ([("core", ["core"])] if core else []):
+    for name, args in [("asis", []), ("desc", ["desc"])] + [(" ".join(t), list(t)) for t in toggles_sets] + ([("core", ["core"])] if core else []):
         path = os.path.join(outdir, "model_" + name.replace(" ", "_") + ".txt")
         rc, err = vlib.run_driver("drv_engine", os.path.join(outdir, "ops.txt"), path, args)
         if rc != 0:
@@ -44,12 +49,17 @@ def run_shard(binpath, mode, seed, tier, n, outdir, replay=None, toggles_sets=()
 def analyse(sh, single_toggles):
     """Per-case classification. Returns dict with lists of case records."""
     ops, impl, exp, models = sh["ops"], sh["impl"], sh["expect"], sh["models"]
-    asis = models["asis"]
+    raw = models["asis"]
+    asis = [strip(l) for l in raw]
+    desc = [strip(l) for l in models["desc"]]
+    for k in list(models):
+        if k not in ("core",): models[k] = [strip(l) for l in models[k]]
     allname = " ".join(ALL_TOGGLES)
     rep_all = models.get(allname)
     res = {"cases": 0, "lines": 0, "impl_fail_cases": [], "disagree": [], "excused_disagree": 0,
            "core_lines": 0, "core_cases": 0, "core_disagree": [], "attributed": {}, "unexplained": [],
-           "exec_disagree": [], "model_asis_unsound_cases": 0}
+           "exec_disagree": [], "model_asis_unsound_cases": 0, "order_sensitive_cases": 0,
+           "order_matched_desc": 0, "order_unresolved": 0}
     for (a, b) in split_cases(ops):
         if b - a <= 1: continue
         res["cases"] += 1
@@ -74,10 +84,18 @@ def analyse(sh, single_toggles):
             else: res["attributed"].setdefault(who, []).append(rec)
         # tie: as-is model vs implementation
         dis = [i for i in idx if impl[i] != asis[i]]
+        order_sensitive = any(raw[i].endswith(" ~") for i in idx) or any(models["desc"][i] != asis[i] for i in idx)
+        if order_sensitive: res["order_sensitive_cases"] += 1
         if dis:
             i = dis[0]
             rec = {"case": text, "op": ops[i], "impl": impl[i], "model": asis[i]}
-            if rep_ok and (not impl_ok or not model_ok):
+            if order_sensitive and all(impl[j] == desc[j] for j in idx):
+                res["order_matched_desc"] += 1
+            elif order_sensitive:
+                # the code walked a >=2-element firewall/projection set in hash order; the model cannot
+                # reproduce that order: judged by the oracle only
+                res["order_unresolved"] += 1
+            elif rep_ok and (not impl_ok or not model_ok):
                 res["excused_disagree"] += 1     # known finding manifests on one side only (hash-set order)
             elif all(vals(impl[j]) == vals(asis[j]) for j in dis):
                 res["exec_disagree"].append(rec)
